@@ -2,7 +2,10 @@ module wharfverif/fixtures
 
 go 1.24.0
 
-require github.com/itchio/wharf v0.0.0
+require (
+	github.com/itchio/lake v0.0.0-20200305150023-cc4284ec2b2a
+	github.com/itchio/wharf v0.0.0
+)
 
 require (
 	github.com/certifi/gocertifi v0.0.0-20210507211836-431795d63e8d // indirect
@@ -27,7 +30,6 @@ require (
 	github.com/itchio/headway v0.0.0-20251229214354-da882c8b5dd4 // indirect
 	github.com/itchio/httpkit v0.0.0-20251231162950-9fb57e6ac916 // indirect
 	github.com/itchio/kompress v0.0.0-20200301155538-5c2eecce9e51 // indirect
-	github.com/itchio/lake v0.0.0-20200305150023-cc4284ec2b2a // indirect
 	github.com/itchio/ox v0.0.0-20200826161350-12c6ca18d236 // indirect
 	github.com/itchio/savior v0.0.0-20200618124148-6034e878d75b // indirect
 	github.com/itchio/screw v0.0.0-20200301160148-75fc2d65fb38 // indirect
